@@ -11,8 +11,9 @@ A layer over `Model/Pase.lean`, as `failsafe.rs` is a module next to `sc/pase.rs
   `Sessions::remove_pase(None)` when the trigger did not arrive on a PASE session - and the state is
   `Idle`), `FailSafe::check_failsafe_timeout` (`now ≥ armed_at + timeout` ⇒ `expire`);
 * `dm/clusters/adm_comm.rs` `handle_revoke_commissioning` on a session that is not a PASE session:
-  `failsafe.expire(…)`, then `Pase::close_comm_window` (no window ⇒ cluster status `WindowNotOpen`;
-  the expiry has happened nevertheless).
+  `failsafe.expire(…)`, then `Pase::close_comm_window`. (With no window present `close_comm_window`
+  answers `Ok(false)`, which the handler does not look at: the command succeeds - the code's comment and
+  the Matter specification speak of the cluster status `WindowNotOpen`; modelled as the code is.)
 
 Not modelled: fabrics / networks roll-back of `expire` (no fabric is involved in a PASE-only
 history: `fab_idx = 0`), `ArmFailSafe` / `CommissioningComplete` of the general commissioning cluster,
@@ -48,27 +49,19 @@ inductive FEv
   | fsPoll
 deriving Repr, DecidableEq, Inhabited
 
-inductive FOut
-  | base (o : Out)
-  /-- cluster status `WindowNotOpen` -/
-  | windowNotOpen
-deriving Repr, DecidableEq, Inhabited
-
-def stepF (f : FSt) : FEv → FSt × FOut
+def stepF (f : FSt) : FEv → FSt × Out
   | .ev e =>
     let r := stepEv f.st e
     -- `SessionEstablishmentSuccess` is answered by exactly the Pake3 that created the session
     let fs := if r.2 = .statusSuccess && f.fs.isNone then some (r.1.now + failsafeMs) else f.fs
-    ({ st := r.1, fs := fs }, .base r.2)
+    ({ st := r.1, fs := fs }, r.2)
   | .cmdRevoke =>
     let f1 := expireFs f
-    match f1.st.window with
-    | none => (f1, .windowNotOpen)
-    | some _ => ({ f1 with st := { f1.st with window := none } }, .base .ok)
+    ({ f1 with st := { f1.st with window := none } }, .ok)
   | .fsPoll =>
     match f.fs with
-    | some d => if f.st.now ≥ d then (expireFs f, .base .none) else (f, .base .none)
-    | none => (f, .base .none)
+    | some d => if f.st.now ≥ d then (expireFs f, .none) else (f, .none)
+    | none => (f, .none)
 
 def runF (f : FSt) : List FEv → FSt
   | [] => f
